@@ -34,12 +34,12 @@ Theorem starmap_alias_agrees : forall f ko kd st ps,
 Proof. intros. unfold outcome, starmap_alias_model, starmap_alias_spec. cbn. now rewrite starmap_alias_go_yields. Qed.
 
 Lemma compress_self_go_yields k : forall n l y, length l <= n ->
-  yields (compress_self_go k l y) = map fst (filter (fun p => zb (snd p)) (pair_up l)).
+  yields (compress_self_go k l y) = map fst (filter (fun p => truthy (snd p)) (pair_up l)).
 Proof.
   induction n as [|n IH]; intros l y H.
   - destruct l; [cbn; ysimp; reflexivity|cbn in H; lia].
   - destruct l as [|x [|b r]]; cbn [compress_self_go pair_up filter map]; ysimp; try reflexivity.
-    cbn [snd]. cbn [length] in H. destruct (zb b); cbn [yields map fst]; rewrite IH by lia; reflexivity.
+    cbn [snd]. cbn [length] in H. destruct (truthy b); cbn [yields map fst]; rewrite IH by lia; reflexivity.
 Qed.
 
 Theorem compress_self_agrees : forall s, outcome (compress_self_model s) = compress_self_spec (snd s).
@@ -349,7 +349,7 @@ Proof.
   induction n as [|n IH]; intros l H.
   - destruct l; [cbn; apply good_tail|cbn in H; lia].
   - destruct l as [|x [|b r]]; cbn [compress_self_go]; [apply good_tail|apply good_app_r, good_tail|].
-    cbn [length] in H. apply good_app_r, good_app_r. destruct (zb b); [apply (good_yield [])|apply IH; lia].
+    cbn [length] in H. apply good_app_r, good_app_r. destruct (truthy b); [apply (good_yield [])|apply IH; lia].
 Qed.
 
 Theorem compress_self_checkpoints : forall s,
